@@ -404,8 +404,17 @@ fn run_pos(c: &PosCase) -> CaseResult {
     let mut k = 0i128;
     let mut last_tick: Option<i64> = None;
     let (mut dropped, mut passed) = (0u64, 0u64);
+    let (mut zero_run, mut long_gap_on_empty_bucket) = (0u32, false);
     for (i, (gap, call)) in c.gaps.iter().enumerate() {
-        clock::advance_ns(gap_ns(*gap, 1000).min(50_000_000));
+        // (gaps are short, so that the bucket is usually empty - except Gap::Secs, which stands for a whole
+        // multiple of 256 ms here, plus a fraction of a millisecond)
+        let g = match gap {
+            Gap::Secs(s) => (*s as i64 % 8 + 1) * 256_000_000 + (*s as i64 / 8 % 3) * 400_000,
+            g => gap_ns(*g, 1000).min(50_000_000),
+        };
+        long_gap_on_empty_bucket |= matches!(gap, Gap::Secs(_)) && zero_run >= 10;
+        zero_run = if g == 0 { zero_run + 1 } else { 0 };
+        clock::advance_ns(g);
         let now = clock::now_ns();
         if matches!(call, Call::Reset) {
             // reset() redraws by itself (not a position-triggered redraw); the bucket must not be refilled by it
@@ -454,6 +463,7 @@ fn run_pos(c: &PosCase) -> CaseResult {
     v.label_if(dropped > 0, "update_throttled");
     v.label_if(passed > 10, "burst_exhausted");
     v.label_if(c.gaps.iter().any(|(_, c)| matches!(c, Call::Reset)), "reset_interleaved");
+    v.label_if(long_gap_on_empty_bucket, "multiple_of_256_ms_after_the_burst_was_used_up");
     Ok(v)
 }
 
@@ -524,6 +534,10 @@ pub struct TickerCase {
     /// is redrawn regularly again
     #[serde(default)]
     restart: bool,
+    /// the bar is hidden when its ticker is started and gets the terminal 30 ms later (set_draw_target, or -
+    /// inside a MultiProgress - by being added to it): the ticker keeps it redrawn from then on
+    #[serde(default)]
+    start_hidden: bool,
 }
 
 /// The frame-rate bound also holds for the requests the steady ticker issues, in particular right after it
@@ -533,7 +547,20 @@ fn run_ticker(c: &TickerCase) -> CaseResult {
     let rate = c.rate.clamp(20, 200) as f64;
     let term = TimedTerm { flushes: Default::default(), cur: Default::default(), slow: Duration::ZERO };
     let target = ProgressDrawTarget::term_like_with_hz(Box::new(term.clone()), rate as u8);
-    let (mp, pb) = if c.in_multi {
+    let (mp, pb) = if c.start_hidden {
+        let pb = ProgressBar::with_draw_target(Some(100), ProgressDrawTarget::hidden());
+        pb.set_style(ProgressStyle::with_template("P{pos} {spinner}").unwrap());
+        pb.enable_steady_tick(Duration::from_millis(1 + c.tick_ms as u64 % 4));
+        std::thread::sleep(Duration::from_millis(30));
+        if c.in_multi {
+            let mp = MultiProgress::with_draw_target(target);
+            let pb = mp.add(pb);
+            (Some(mp), pb)
+        } else {
+            pb.set_draw_target(target);
+            (None, pb)
+        }
+    } else if c.in_multi {
         let mp = MultiProgress::with_draw_target(target);
         let pb = mp.add(ProgressBar::new(100));
         (Some(mp), pb)
@@ -541,7 +568,9 @@ fn run_ticker(c: &TickerCase) -> CaseResult {
         (None, ProgressBar::with_draw_target(Some(100), target))
     };
     pb.set_style(ProgressStyle::with_template("P{pos} {spinner}").unwrap());
-    pb.enable_steady_tick(Duration::from_millis(1 + c.tick_ms as u64 % 4));
+    if !c.start_hidden {
+        pb.enable_steady_tick(Duration::from_millis(1 + c.tick_ms as u64 % 4));
+    }
     std::thread::sleep(Duration::from_millis(120));
     let stall = Duration::from_millis(200 + c.stall_ms as u64 % 500);
     pb.suspend(|| std::thread::sleep(stall));
@@ -580,12 +609,13 @@ fn run_ticker(c: &TickerCase) -> CaseResult {
             frames[k.saturating_sub(5)..=k].iter().map(|x| x.duration_since(t0.unwrap())).collect::<Vec<_>>()
         );
     }
-    ensure!(frames.len() >= 10, "harness", "the steady ticker painted only {} frames", frames.len());
+    ensure!(frames.len() >= 10, if c.start_hidden { "stale_ticker" } else { "harness" }, "the steady ticker painted only {} frames{}", frames.len(), if c.start_hidden { " after the bar that was hidden when it started got the terminal" } else { "" });
     let mut v = Verdict::default();
     v.nontrivial = true;
     v.label("ticker_held_up_then_released");
     v.label_if(c.in_multi, "multi_progress_target");
     v.label_if(c.restart, "ticker_restarted_with_the_same_interval_after_finish_and_reset");
+    v.label_if(c.start_hidden, "ticker_started_while_the_bar_was_hidden");
     Ok(v)
 }
 
@@ -672,27 +702,28 @@ pub fn property() -> Property {
             }),
             Box::new(Gen::<PosCase> {
                 name: "position_bucket",
-                rule: "30-400 (thorough 2000) inc/set_position/dec calls on an unlimited target (every position-triggered tick paints) at gaps from 0 to 50 ms: at most 10 + T/1ms + 1 redraws per window, an update >= 1 ms after the last one is redrawn, position() exact, the redraw sees the latest position",
+                rule: "30-400 (thorough 2000) inc/set_position/dec calls on an unlimited target (every position-triggered tick paints) at gaps from 0 to 50 ms and occasionally a whole multiple of 256 ms: at most 10 + T/1ms + 1 redraws per window, an update >= 1 ms after the last one is redrawn, position() exact, the redraw sees the latest position",
                 strategy: |t| {
                     let n = t.pick(400, 2000);
                     let call = prop_oneof![12 => Just(Call::Inc), 2 => Just(Call::SetPosition), 2 => Just(Call::Dec), 1 => Just(Call::Reset)];
-                    proptest::collection::vec((gap_strategy(), call), 30..n).prop_map(|gaps| PosCase { gaps }).boxed()
+                    let gap = prop_oneof![40 => gap_strategy(), 1 => any::<u16>().prop_map(Gap::Secs)];
+                    proptest::collection::vec((gap, call), 30..n).prop_map(|gaps| PosCase { gaps }).boxed()
                 },
                 cases: |t| t.pick(1_000, 32_000),
                 run: run_pos,
                 signature: no_signature,
-                essential: &["update_throttled", "burst_exhausted", "reset_interleaved"],
+                essential: &["update_throttled", "burst_exhausted", "reset_interleaved", "multiple_of_256_ms_after_the_burst_was_used_up"],
                 workers: w,
                 decode: None,
             }),
             Box::new(Gen::<TickerCase> {
                 name: "ticker_requests",
                 rule: "real clock: a steady ticker (1-4 ms) on a 20-200 Hz target (stand-alone or MultiProgress) runs 120 ms, is held up by suspend() for 200-700 ms and runs 150 ms more; in half of the cases the bar is then finished, reset and given a ticker with the same interval again (it must be redrawn again); the real flush instants must satisfy the window bound 20 + R*T + 1 (slack 12 for scheduling delays)",
-                strategy: |_| (20u8..=200, 0u8..4, any::<u16>(), any::<bool>()).prop_map(|(rate, tick_ms, stall_ms, in_multi)| TickerCase { rate, tick_ms, stall_ms, in_multi, restart: stall_ms % 2 == 0 }).boxed(),
+                strategy: |_| (20u8..=200, 0u8..4, any::<u16>(), any::<bool>()).prop_map(|(rate, tick_ms, stall_ms, in_multi)| TickerCase { rate, tick_ms, stall_ms, in_multi, restart: stall_ms % 2 == 0, start_hidden: stall_ms % 3 == 0 }).boxed(),
                 cases: |t| t.pick(2, 60),
                 run: run_ticker,
                 signature: no_signature,
-                essential: &["ticker_held_up_then_released", "ticker_restarted_with_the_same_interval_after_finish_and_reset"],
+                essential: &["ticker_held_up_then_released", "ticker_restarted_with_the_same_interval_after_finish_and_reset", "ticker_started_while_the_bar_was_hidden"],
                 workers: 6,
                 decode: None,
             }),
